@@ -22,7 +22,7 @@ cd "$(dirname "$0")"
 export CARGO_NET_OFFLINE=true
 export VERIF_REPO="${VERIF_REPO:-/repo}"
 export CARGO_TARGET_DIR="${KANI_TARGET_DIR:-/var/tmp/kani_consec_target}"
-HARNESSES="consts_as_modelled find_bit_in_item_complete find_bit_in_item_equals_closed_form find_bit_in_bucket_bounded owner_of_bounded"
+HARNESSES="${*:-consts_as_modelled find_bit_in_item_complete find_bit_in_item_equals_closed_form find_bit_in_bucket_bounded owner_of_bounded}"
 rc=0
 for h in $HARNESSES; do
     t0=$(date +%s.%N)
